@@ -119,23 +119,6 @@ theorem deepcopy_contents (ns : Nat) (w : World C) (buf : List (Item S))
 
 /-! ## locality -/
 
-/-- the objects an invocation may read or write: the objects of the branch's own namespace, the
-objects its state refers to, the objects it is passed -/
-def foot (ns : Nat) (refs cells : List Tok) (t : Tok) : Prop := t.1 = ns ∨ t ∈ refs ∨ t ∈ cells
-
-/-- **Locality of mutation** (the assumption of the trusted base, DESIGN.md section 2, as a
-hypothesis on a branch object that allocates in namespace `ns`): an invocation
-* refers afterwards, and yields values that refer, only to objects of its footprint,
-* leaves every object outside its footprint unchanged,
-* behaves identically on two heaps that agree on its footprint. -/
-structure Local (ops : Ops σ S C) (ns : Nat) : Prop where
-  refs_sub : ∀ st s (r : Req S) t,
-    (t ∈ ops.refs (ops.act st s r).2.1 ∨ t ∈ cellsOf (ops.act st s r).2.2.outs) → foot ns (ops.refs s) r.cells t
-  frame : ∀ st s (r : Req S) t, ¬ foot ns (ops.refs s) r.cells t → (ops.act st s r).1 t = st t
-  det : ∀ st₁ st₂ s (r : Req S), (∀ t, foot ns (ops.refs s) r.cells t → st₁ t = st₂ t) →
-    (ops.act st₁ s r).2 = (ops.act st₂ s r).2 ∧
-    ∀ t, foot ns (ops.refs s) r.cells t → (ops.act st₁ s r).1 t = (ops.act st₂ s r).1 t
-
 /-- two heaps agree on a set of objects -/
 def Agree (W : Tok → Prop) (st₁ st₂ : Store C) : Prop := ∀ t, W t → st₁ t = st₂ t
 
@@ -659,13 +642,6 @@ theorem passG_others (i : Nat) (P : Tok → Prop) (lastOrig : Bool) (orig : List
 upstream objects `Ui` it was handed as originals -/
 def Prot (i : Nat) (Ui : List Tok) (t : Tok) : Prop := t.1 = ownNs i ∨ t.1 = copyNsOf i ∨ t ∈ Ui
 
-/-- the heap in which the objects of `buf` hold what the corresponding objects of `blk` hold in `st0`
-(a private deep copy of `blk` as it was at the start) -/
-def preload (st0 : Store C) (blk buf : List (Item S)) (st : Store C) : Store C :=
-  fun t => match ((cellsOf buf).zip (cellsOf blk)).lookup t with
-    | some s => st0 s
-    | none => st t
-
 theorem lookup_none_of_not_mem {l : List (Tok × Tok)} {t : Tok} (h : t ∉ l.map (·.1)) : l.lookup t = none := by
   induction l with
   | nil => rfl
@@ -752,13 +728,6 @@ theorem outsideI_outside {i : Nat} {Ui F F' : List Tok} {b : Branch σ S C} (h :
     rcases hp with hp | hp
     · exact (h3 t ht).1 hp
     · exact (h3 t ht).2 (hf t hp).2
-
-/-- one step of the branch alone: it is handed `buf`; if that is a copy, its objects hold the contents
-that the block `blk` had at the start -/
-def aloneStep (st0 : Store C) (blk buf : List (Item S)) (copied : Bool) (stA : Store C) (b : Branch σ S C) :
-    StepRes σ S C :=
-  let r := stepBranch buf (if copied then preload st0 blk buf stA else stA) b
-  ⟨.hand b.id buf copied :: r.evs, r.st, r.br⟩
 
 
 /-- the objects of branch `i` after a turn in which it was handed a copy (`more`) or the original block -/
@@ -1087,23 +1056,6 @@ theorem finalPass_no_i (i : Nat) (fwe : Bool) (act : List (Branch σ S C)) (st :
 
 /-! ## all buffers -/
 
-/-- the life of a branch alone: for the successive blocks of the flow it is handed the buffers of the
-schedule (`(block, buffer, copied)`), each holding the contents that the block had at the start -/
-def aloneLife (st0 : Store C) : Store C → Option (Branch σ S C) → List (List (Item S) × List (Item S) × Bool) →
-    List (Ev S C) × Store C × Option (Branch σ S C)
-  | st, none, _ => ([], st, none)
-  | st, some b, [] => ([], st, some b)
-  | st, some b, e :: rest =>
-    let a := aloneStep st0 e.1 e.2.1 e.2.2 st b
-    let q := aloneLife st0 a.st a.br rest
-    (a.evs ++ q.1, q.2)
-
-/-- a schedule entry for branch `i`: the buffer is a deep copy of the block made of objects created for `i`,
-or the block itself -/
-def SchedOK (i : Nat) (e : List (Item S) × List (Item S) × Bool) : Prop :=
-  e.2.1.map (·.skel) = e.1.map (·.skel) ∧ (e.2.2 = false → e.2.1 = e.1) ∧
-  (e.2.2 = true → ∀ t ∈ cellsOf e.2.1, t.1 = copyNsOf i)
-
 theorem aloneLife_none (st0 st : Store C) (sched : List (List (Item S) × List (Item S) × Bool)) :
     aloneLife (σ := σ) st0 st none sched = ([], st, none) := by
   cases sched <;> rfl
@@ -1313,13 +1265,5 @@ theorem passes_nosource : ∀ (bl : List (List (Item S))) (act : List (Branch σ
       rw [pass_eq_passG]
       exact fun b' hb' => ((passG_brs true blk act w).2 b' hb').1
     | cons blk2 rest2 => exact ih _ _ (by simp)
-
-/-- the complete trace of branch `b` run alone on the schedule -/
-def aloneTrace (st0 : Store C) (b : Branch σ S C) (sched : List (List (Item S) × List (Item S) × Bool))
-    (fwe : Bool) : List (Ev S C) :=
-  (aloneLife st0 st0 (some b) sched).1 ++
-    (match (aloneLife st0 st0 (some b) sched).2.2 with
-      | none => []
-      | some b1 => (finalPass fwe (aloneLife st0 st0 (some b) sched).2.1 [b1]).1)
 
 end Lena.C04
